@@ -138,3 +138,11 @@ P("C06", "srcfacts+mirfacts+rules",
   "rename_all / derive list) does no substring search on stringified tokens; parse_field drops a field only under skip; interface keys, "
   "z.object keys, enum literals and z.enum literals are bound to the serialized name.",
   "serde_rename_rule's tables are trusted to equal serde's", a=True, b=True)
+
+P("C04", "srcfacts+mirfacts+rules",
+  "static analysis: literal tables of the injected-type filter per spelling class (TABLE), divert-branch enumeration around ParameterInfo/ChannelInfo construction (CTRL over MIR), naming order (SV), key-hole bindings and per-combination invoke arguments from template control paths (TPATH)",
+  "Decides: every documented spelling of the injected types is filtered and only Tauri type names are; a value parameter becomes a key under "
+  "exactly {typed, identifier, not injected}; channels are recognised, filtered from the values and all extracted; keys are rename ▷ command "
+  "rename_all ▷ camelCase default and every key hole is the serialized name in both modes; optional markers are guarded by exactly isOptional, "
+  "which is last-segment == Option; for each of the four parameter/channel combinations both modes hand invoke the same key set.",
+  "equality of serde-style camelCase and Tauri's conversion for all identifiers is not decided", a=True, b=True)
